@@ -92,6 +92,70 @@ theorem no_timeout_never_expires (cfg : Cfg) (now : Q) (c : ACookie) (hT : cfg.t
   refine ⟨_, load_payload cfg now c, ?_, rfl⟩
   simp [loadedSess, expired, hT]
 
+/-! ### any deserialised payload value (well-signed but malformed, or read by an unsigned serialiser) -/
+
+/-- `malformed_is_new_empty`, PARTIAL.  For EVERY JSON value `v` the serialiser may hand to `__init__` (whatever signed
+it) that is not well-formed — it does not unpack into three fields, or `float()` refuses one of its stamps — the
+session is NEW and EMPTY, created now, and construction does not raise; no key of the value's state is visible, even when
+the third field is a non-empty mapping and only a stamp is bad.
+MISSING for the full statement ("anything that is not a (number, number, mapping) payload"): values whose stamps convert
+but whose state is not a mapping — see `non_mapping_state_is_not_new_empty`, finding F-C10c. -/
+theorem malformed_is_new_empty_partial (strNum : String → Option Nat) (cfg : Cfg) (now : Q) (v : JV)
+    (hwf : v.wellFormed strNum = false) (hnm : v.nonMappingState strNum = false) :
+    ∃ s, load cfg now (some (v.toWire strNum)) = some s ∧ s.new = true ∧ s.data = [] ∧ s.created = now := by
+  rcases cfg with ⟨to, re, soe⟩
+  simp only [JV.toWire, JV.wellFormed, JV.nonMappingState] at *
+  cases hu : v.unpack3 with
+  | none => cases to <;> simp [load]
+  | some t =>
+    rcases t with ⟨a, b, c⟩
+    rw [hu] at hwf hnm
+    cases ha : a.toFld strNum with
+    | bad => cases to <;> simp [load, ha]
+    | num rq =>
+      cases hb : b.toFld strNum with
+      | bad =>
+        cases to with
+        | none => simp [load, ha, hb]
+        | some t => by_cases ho : olderThan now rq t = true <;> simp [load, ha, hb, ho]
+      | num cq =>
+        cases c <;> simp_all
+
+/-- the negation at concrete witnesses (replayed on the real code with values signed by the real serialiser): stamps that
+convert and a state that is not a mapping — `[1, 1, 3]` makes `dict.__init__` raise, `[1, 1, [["k", 1]]]` is loaded as
+`{"k": 1}` with `new = False`, `[1, 1, ""]` as an empty session that is not new. -/
+theorem non_mapping_state_is_not_new_empty :
+    (load ⟨none, none, true⟩ 400 (some ((JV.arr [.int 1, .int 1, .int 3]).toWire (fun _ => none)))).isNone = true ∧
+    (load ⟨none, none, true⟩ 400 (some ((JV.arr [.int 1, .int 1, .arr [.arr [.str "k", .int 1]]]).toWire (fun _ => none)))).map
+        (fun s => (s.data.map (·.1), s.new)) = some (["k"], false) ∧
+    (load ⟨none, none, true⟩ 400 (some ((JV.arr [.int 1, .int 1, .str ""]).toWire (fun _ => none)))).map
+        (fun s => (s.data.length, s.new)) = some (0, false) := by decide
+
+/-- a well-formed value is loaded exactly: its mapping (unless older than the timeout), its creation time, not new -/
+theorem wellformed_loads_exactly (strNum : String → Option Nat) (cfg : Cfg) (now : Q) (v : JV)
+    (hwf : v.wellFormed strNum = true) :
+    ∃ a b d rq cq, v.unpack3 = some (a, b, .obj d) ∧ a.toFld strNum = .num rq ∧ b.toFld strNum = .num cq ∧
+      load cfg now (some (v.toWire strNum)) = some (loadedSess cfg now ⟨rq, false, cq, d⟩) := by
+  simp only [JV.wellFormed] at hwf
+  cases hu : v.unpack3 with
+  | none => simp [hu] at hwf
+  | some t =>
+    rcases t with ⟨a, b, c⟩
+    rw [hu] at hwf
+    cases c with
+    | obj d =>
+      simp only [Bool.and_eq_true, bne_iff_ne, ne_eq] at hwf
+      cases ha : a.toFld strNum with
+      | bad => exact absurd ha hwf.1
+      | num rq =>
+        cases hb : b.toFld strNum with
+        | bad => exact absurd hb hwf.2
+        | num cq =>
+          refine ⟨a, b, d, rq, cq, rfl, ha, hb, ?_⟩
+          have := load_payload cfg now ⟨rq, false, cq, d⟩
+          simpa [JV.toWire, hu, ha, hb, JV.toState, Wire.ofPayload, ACookie.payload] using this
+    | _ => simp at hwf
+
 /-! ## 2. One call, one view: refinement to the finite-map spec -/
 
 /-- every `ISession` call of the model (with its wrapper and the nested wrapped calls of `flash`, `pop_flash`,
@@ -328,6 +392,13 @@ theorem thresholds_as_modelled :
     Gen.sizeProbe.length = 18 ∧ Gen.sizeProbe.all (fun p => modelSize p.1 == p.2) = true ∧
     Gen.excProbe.length = 4 ∧ Gen.excProbe.all (fun p => modelExc p.1 p.2.1 == p.2.2) = true ∧
     Gen.callbacksAfterMany = modelCallbacksAfterMany ∧ Gen.payloadProbe = modelPayload := by decide
+
+/-- what `__init__` makes of every value of the payload-shape cube on the real code (all `[stamp, stamp, state]` triples over
+8 stamp kinds × 8 state kinds, the convertible ones again under an expired timeout, the other arities and kinds: 678 rows)
+is what the model's `load ∘ toWire` makes of it: new/old, creation time, visible keys, or raising. -/
+theorem payload_shapes_as_modelled :
+    Gen.shapeProbe.length = 678 ∧ Gen.shapeProbe.all (fun p => decide (modelShape p.1 p.2.1 = p.2.2)) = true := by
+  decide +kernel
 
 /-! ## 6. Non-vacuity -/
 
